@@ -90,8 +90,26 @@ def hook_byte_to_point(e, nm, d):
         return "%s.extent" % nm.r(e["b"], d + 1)
     if k == "call" and e.get("fn") == "ts_node_start_byte":
         return "ts_node_start_point(%s)" % ",".join(nm.r(a, d + 1) for a in e["a"])
-    if k == "bin" and e["op"] in CMP:
-        return "%s(%s,%s)" % (CMP[e["op"]], nm.r(e["l"], d + 1), nm.r(e["r"], d + 1))
+    if k == "bin" and e["op"] in ("<", "<=", ">", ">=", "==", "!="):
+        return canon_cmp(e["op"], nm.r(e["l"], d + 1), nm.r(e["r"], d + 1))
+    return hook_point_canon(e, nm, d)
+
+
+def canon_cmp(op, a, b):
+    """One spelling per comparison, whatever the operand order: LT/LTE with the smaller side first, EQ/NE sorted."""
+    if op in (">", ">="):
+        op, a, b = {">": "<", ">=": "<="}[op], b, a
+    if op in ("==", "!="):
+        a, b = sorted([a, b])
+    return "%s(%s,%s)" % ({"<": "LT", "<=": "LTE", "==": "EQ", "!=": "NE"}[op], a, b)
+
+
+POINT_CMP = {"point_lt": "<", "point_lte": "<=", "point_gt": ">", "point_gte": ">=", "point_eq": "=="}
+
+
+def hook_point_canon(e, nm, d):
+    if e.get("k") == "call" and e.get("fn") in POINT_CMP and len(e.get("a", [])) == 2:
+        return canon_cmp(POINT_CMP[e["fn"]], nm.r(e["a"][0], d + 1), nm.r(e["a"][1], d + 1))
     return None
 
 
@@ -117,7 +135,7 @@ def rule_siblings(ctx, F):
     a = ctx.need_fn(F, "ts_node__descendant_for_byte_range", "S1")
     b = ctx.need_fn(F, "ts_node__descendant_for_point_range", "S1")
     if a and b:
-        diff, nb = siblings.compare(a, b, hook_byte_to_point, None)
+        diff, nb = siblings.compare(a, b, hook_byte_to_point, hook_point_canon)
         if diff is None:
             ctx.ok("S1", "descendant_for_byte_range~descendant_for_point_range", "isomorphic over %d blocks under {.bytes↔.extent, ts_node_start_byte↔ts_node_start_point, <↔point_lt, <=↔point_lte, >↔point_gt, ==↔point_eq}" % nb,
                    sample={"a": a.name, "b": b.name, "blocks": nb})
